@@ -621,6 +621,49 @@ def errsign_oracle():
     return False, None, None
 
 
+def blank_adjacent_oracle():
+    """catalogue level, with blank pixels in the image: sources of both signs whose peak pixel touches a blanked strip; the
+    catalogue of the negated image is the mirror of the catalogue of the image (same sources, negated fluxes)"""
+    import logging
+    import os
+    import shutil
+    import tempfile
+    from astropy.io import fits
+    sfm = loader.real('source_finder')
+    d = tempfile.mkdtemp(prefix='c13b_', dir='/var/tmp')
+    try:
+        N = 72
+        y, x = real_np.mgrid[0:N, 0:N].astype(float)
+        g = lambda a, r0, c0: a * real_np.exp(-((y - r0) ** 2 + (x - c0) ** 2) / (2 * 1.6 ** 2))
+        img = g(24, 18.2, 20.3) + g(-24, 28.8, 46.1) + g(22, 35.2, 18.7) + g(-20, 55.3, 52.4) + g(-26, 35.1, 50.2)
+        img[30:34, :] = real_np.nan
+        hdr = fits.Header()
+        hdr['CTYPE1'], hdr['CTYPE2'] = 'RA---SIN', 'DEC--SIN'
+        hdr['CRVAL1'], hdr['CRVAL2'] = 30., -40.
+        hdr['CRPIX1'] = hdr['CRPIX2'] = N / 2
+        hdr['CDELT1'], hdr['CDELT2'] = -1 / 120, 1 / 120
+        hdr['BMAJ'] = hdr['BMIN'] = 3.77 / 120
+        hdr['BPA'] = 0.0
+        cats = []
+        for sign in (1, -1):
+            fn = os.path.join(d, 'i%d.fits' % sign)
+            fits.PrimaryHDU((sign * img).astype(real_np.float64), header=hdr).writeto(fn)
+            f = sfm.SourceFinder(log=logging.getLogger('c13'))
+            srcs = f.find_sources_in_image(fn, rms=1.0, bkg=0.0, cores=1, innerclip=6, outerclip=4, nonegative=False)
+            cats.append(sorted((round(s_.ra, 5), round(s_.dec, 5), s_.peak_flux) for s_ in srcs))
+        A, B = cats
+        if len(A) != len(B):
+            return True, 'blank-adjacent-count', 'image with a blanked strip: %d sources, negated image: %d sources (fluxes %s vs %s)' % (len(A), len(B), [round(t[2], 1) for t in A], [round(t[2], 1) for t in B])
+        for a_, b_ in zip(A, B):
+            if abs(a_[0] - b_[0]) > 2e-4 or abs(a_[1] - b_[1]) > 2e-4 or abs(a_[2] + b_[2]) > 0.02 * abs(a_[2]):
+                return True, 'blank-adjacent-mirror', 'source %s of the image has no mirror in the negated image (closest %s)' % (a_, b_)
+        return False, None, None
+    except Exception as e:
+        return True, 'raises-%s' % type(e).__name__, repr(e)[:300]
+    finally:
+        shutil.rmtree(d, ignore_errors=True)
+
+
 def run(rep):
     sf, models = I.sym_finder()
     thorough = rep.tier == 'thorough'
@@ -647,6 +690,10 @@ def run(rep):
         rep.validated_runs(1)
         if bad:
             rep.finding('C13/K-selectors/summit-order:%s' % cls, w_, detail, kernel='K-selectors')
+    bad, cls, detail = blank_adjacent_oracle()
+    rep.validated_runs(2)
+    if bad:
+        rep.finding('C13/K-negate-islands/%s' % cls, dict(kind='blank-adjacent'), detail, kernel='K-negate-islands')
     bad, cls, detail = polarity_oracle()
     rep.validated_runs(3)
     if bad:
@@ -705,6 +752,8 @@ def replay(w):
         bad, cls, detail = replay_selector(wit)
     elif wit.get('kind') == 'polarity-catalogue':
         bad, cls, detail = polarity_oracle()
+    elif wit.get('kind') == 'blank-adjacent':
+        bad, cls, detail = blank_adjacent_oracle()
     elif wit.get('kind') == 'errors-sign':
         bad, cls, detail = errsign_oracle()
     else:
